@@ -1,6 +1,6 @@
 (* C03 Match eligibility and limit-price protection. *)
 From ATS Require Import Prelude Dec DecFacts Uuid Semver Types Contract Tactics Spec Inv InvAsk InstProofs AskProofs
-  BidFacts InvBid InvStep ExitProofs Ledger MatchProofs.
+  BidFacts InvBid InvStep ExitProofs Ledger MsgProofs MatchProofs AdmitProofs MatchLive.
 
 (* A match succeeds ONLY IF: sender is an executor, no funds; both ids canonical and both orders on the book; equal
    quote denominations; the ask plain or approved (never pending); ask price <= bid price; the execution price equals
@@ -44,6 +44,24 @@ Proof.
 Qed.
 Print Assumptions C03_only_if_structural.
 
-(* The converse ("an executor's request meeting these conditions, with the fees payable, is carried out") is NOT
-   proved in this development: it is covered by the correspondence run (the model refuses exactly when the
-   contract refuses on every generated match request) -- see DESIGN.md, "partial". *)
+(* CONVERSELY: in every state satisfying the invariant, an executor's request with no funds, canonical ids naming an
+   ask and a bid on the book with equal quote denominations, the ask not pending, an execution price allowed by the
+   price rule (ask <= bid, price = one of the two limits), 1 <= size <= both remaining sizes, size*price the whole
+   number gross and size*bid price the whole number og, and with the configured fees payable (fees_payable: the ask
+   fee is computable and does not exceed the proceeds; the pro-rata bid fee is computable and has an account to go
+   to; at an improved price the fee share of the refund is computable and not smaller than the fee for the fill)
+   IS carried out. *)
+Theorem C03_if : forall e st c a b ap bp xp sender ask_id bid_id price size gross og,
+  Inv st -> st_cfg st = Some c -> In sender (cf_executors c) ->
+  uuid_canonical ask_id = true -> uuid_canonical bid_id = true -> price <> "" -> 1 <= size ->
+  lookup ask_id (st_asks st) = Some a -> lookup bid_id (st_bids st) = Some (SlotV3 b) ->
+  a_quote a = c_denom (b_quote b) -> a_class a <> Pending ->
+  dec_parse (a_price a) = Some ap -> dec_parse (b_price b) = Some bp -> dec_parse price = Some xp ->
+  price_rule ap bp xp = true ->
+  size <= a_size a -> size <= unfilled b ->
+  gross * 10 ^ d_scale xp = d_mant xp * size ->
+  og * 10 ^ d_scale bp = d_mant bp * size ->
+  fees_payable c b xp size gross og (dec_ltb xp bp) ->
+  is_ok (execute FX e st sender [] (ExecuteMatch ask_id bid_id price size)) = true.
+Proof. exact match_if. Qed.
+Print Assumptions C03_if.
